@@ -1,13 +1,15 @@
 #!/bin/bash
 # Regression sweep: every recorded seed against the check of the property it breaks, on a scratch worktree
-# (never /repo). usage: sweep_seeds.sh [out.tsv]
-OUT="${1:-/scratch/t/sweep.tsv}"
-WT=/tmp/wt_sweep
-export VERIF_REPO=$WT VERIF_WORK=/scratch/t/sweep-work VERIF_EVIDENCE_DIR=/scratch/t/sweep-ev VERIF_NO_WITNESS=1
+# (never /repo). usage: sweep_seeds.sh [out.tsv [part parts]]   (part/parts: only every parts-th seed, to run several sweeps side by side)
+OUT="${1:-/scratch/t/sweep.tsv}"; PART="${2:-0}"; PARTS="${3:-1}"
+WT=/tmp/wt_sweep$PART
+export VERIF_REPO=$WT VERIF_WORK=/scratch/t/sweep-work$PART VERIF_EVIDENCE_DIR=/scratch/t/sweep-ev$PART VERIF_NO_WITNESS=1
 git -C /repo worktree remove --force $WT 2>/dev/null; git -C /repo worktree prune
 git -C /repo worktree add -q --detach $WT HEAD || exit 2
 : > "$OUT"
+n=0
 for d in /verif/seeded/*/; do
+  n=$((n+1)); [ $((n % PARTS)) -eq $PART ] || continue
   id=$(basename $d); prop=$(python3 -c "import json;print(json.load(open('$d/meta.json'))['breaks_property'])")
   ( cd $WT && git checkout -q -- . && git apply "$d/patch.diff" 2>/dev/null ) || { printf "%s\t%s\tPATCH-DOES-NOT-APPLY\n" $id $prop >> "$OUT"; continue; }
   res=$(cd /verif && ./check $prop 2>&1 | grep -E "^(VIOLATION|UNDECIDED|OK)" | head -1 | cut -c1-160)
